@@ -18,11 +18,11 @@ var extraClauses = map[string][]string{
 	"C13": {"lock-released for loginInboundConn"},
 	"C14": {"queue-reconciled: SetState and SetOutboundState call ensurePlayPacketQueue(new.State) unconditionally under c.mu", "lock-released for package netmc"},
 	"C15": {"full-reader (shared with C01): the decoder's reader is always the fullReader wrapper"},
-	"C16": {"lock-released for connectedPlayer / connectionRequest"},
-	"C18": {"lock-released for serverConnection"},
+	"C16": {"lock-released for connectedPlayer / connectionRequest", "server-equality: RegisteredServer values are never compared with == (always RegisteredServerEqual)"},
+	"C18": {"lock-released for serverConnection", "recorded-on-own-connection: recordBackendKeepAlive is handed the handler's own serverConn field"},
 	"C21": {"last-seen-adopted: in the session chat/command continuations the queue's fixed last-seen update is stored into the packet/builder before anything is returned on the paths where it is non-nil", "lock-released for chatQueue"},
 	"C23": {"redirect-filtered also fires when the copy is built with CreateBuilder() and no filtered Redirect replaces the copied target"},
-	"C24": {"lock-released for clientConfigSessionHandler"},
+	"C24": {"lock-released for clientConfigSessionHandler", "bypass-only-with-a-backend: enqueuePluginMessage returns false (deliver directly) only behind target != nil", "overflow handling restated on the region past the totals that does not enqueue; deque operations are seen through helpers"},
 	"C26": {"payload-owned: Bytes() of a buffer kept in a struct field or returned to a pool does not escape (returned, stored, captured)"},
 	"C27": {"lock-released for package resourcepack"},
 	"C28": {"update-not-dropped: every early return of processUpdateForEntry lies behind 'no add-player action' and 'entry is nil'", "lock-released for package internal/tablist"},
